@@ -10,7 +10,7 @@ from .tlc import SPEC_DIR, JAR, CM, scratch_root, runcfg_module
 DEFAULT_RUNCFG = {'Wins': {(97, 36, 91)}, 'MaxD': 1, 'OpSel': {'concat'}, 'PoolSel': {'class'},
                   'Quants': {('Optional', 0, 1, True)}, 'Names': {'n'}, 'Strs': {(97,)}, 'SemLen': 1, 'SemWin': (97, 98), 'Bounds': {(0, 1)},
                   'CArgs': {('c', 97)}, 'MaxFrom': 1, 'CWin': (97, 98), 'CSel': {'alg'},
-                  'AlgWin': {97, 98, 99}, 'MaxR': 1, 'MaxC': 1, 'AlgOp': 'or', 'IPAlpha': {49}, 'DecBasePars': set(), 'DecMids': set(), 'DecCtxs': set(), 'IPAddrs': set(), 'IPCtxs': set(), 'Pars': set(), 'DateFmtLists': set(), 'DateCands': set(), 'DateExts': set(), 'HLeaves': {'a'}, 'HOps': {'concat'}, 'MaxHeap': 3, 'Handles': {1}, 'ObsGroups': {'match'}, 'MaxLen': 2, 'MaxT': 2, 'NG': 1}
+                  'AlgWin': {97, 98, 99}, 'TxtWin': {97, 45, 92}, 'MaxR': 1, 'MaxC': 1, 'AlgOp': 'or', 'IPAlpha': {49}, 'DecBasePars': set(), 'DecMids': set(), 'DecCtxs': set(), 'IPAddrs': set(), 'IPCtxs': set(), 'Pars': set(), 'DateFmtLists': set(), 'DateCands': set(), 'DateExts': set(), 'HLeaves': {'a'}, 'HOps': {'concat'}, 'MaxHeap': 3, 'Handles': {1}, 'ObsGroups': {'match'}, 'MaxLen': 2, 'MaxT': 2, 'NG': 1}
 
 
 def setup():
